@@ -953,3 +953,184 @@ Proof.
   - intros H. inversion H; subst. rewrite Forall_forall in H3. split; auto. intros b Hb. specialize (H3 b Hb).
     destruct (scmp so (k a) (k b)); auto; congruence.
 Qed.
+Definition is_some {A} (x : option A) : bool := match x with Some _ => true | None => false end.
+
+(* C01's law, specialised to nullable Int64 keys: x NOT IN vs is TRUE iff vs is empty, or x is not NULL, vs holds
+   no NULL and no element equal to x *)
+Lemma not_in_TT_keys : forall (x : option Z) (ks : list (option Z)),
+  is_TT (not_in3 (inj x) (map inj ks)) =
+  match ks with
+  | [] => true
+  | _ => is_some x && forallb is_some ks && negb (existsb (fun k => oeq false x k) ks)
+  end.
+Proof.
+  intros x ks. apply eq_iff_eq_true.
+  assert (T : is_TT (not_in3 (inj x) (map inj ks)) = true <-> not_in3 (inj x) (map inj ks) = TT).
+  { destruct (not_in3 (inj x) (map inj ks)); cbn; split; congruence. }
+  rewrite T, not_in_null_aware. destruct ks as [|k0 ks']; [split; auto|]. set (ks := k0 :: ks').
+  rewrite !andb_true_iff, forallb_forall, negb_true_iff. split.
+  - intros [H|[H1 [H2 H3]]]; [discriminate|]. split; [split|].
+    + destruct x; auto; exfalso; apply H1; reflexivity.
+    + intros k Hk. destruct k; auto; exfalso; apply H2; apply in_map_iff; exists None; auto.
+    + apply existsb_all_false. intros k Hk. destruct x as [a|], k as [b|]; cbn; auto.
+      destruct (a =? b) eqn:E; auto. apply Z.eqb_eq in E. subst. exfalso.
+      apply (H3 (VInt b)); [apply in_map_iff; exists (Some b); auto|]. cbn. rewrite Z.compare_refl. reflexivity.
+  - intros [[H1 H2] H3]. right. split; [|split].
+    + destruct x; [discriminate | discriminate H1].
+    + intros H. apply in_map_iff in H. destruct H as [k [E Hk]]. apply H2 in Hk. destruct k; discriminate.
+    + intros v Hv. apply in_map_iff in Hv. destruct Hv as [k [<- Hk]]. pose proof (H2 k Hk) as Sk.
+      destruct x as [a|]; [|discriminate]. destruct k as [b|]; [|discriminate]. cbn. intros C. inversion C as [C'].
+      apply Z.compare_eq in C'. subst.
+      assert (X : existsb (fun k => oeq false (Some b) k) ks = true).
+      { apply existsb_exists. exists (Some b). split; auto. cbn. apply Z.eqb_refl. }
+      congruence.
+Qed.
+
+Lemma forallb_some_map : forall {A} (k : A -> option Z) R,
+  forallb is_some (map k R) = negb (existsb (fun r => match k r with None => true | _ => false end) R).
+Proof. induction R as [|r R IH]; [reflexivity|]. cbn. rewrite IH. destruct (k r); reflexivity. Qed.
+Lemma existsb_map_comp : forall {A B} (f : B -> bool) (g : A -> B) l, existsb f (map g l) = existsb (fun x => f (g x)) l.
+Proof. induction l as [|a l IH]; [reflexivity|]. cbn. rewrite IH. reflexivity. Qed.
+
+Section NAProofs.
+  Variable hash : okey -> Z.
+  Variables kb1 kp1 : row -> option Z.
+  Variables wl : Z.
+  Let kb := fun r : row => [kb1 r].
+  Let kp := fun r : row => [kp1 r].
+  Let tt2 := fun _ _ : row => true.
+  Let on := on_of false kb kp tt2.
+
+  Lemma on_oeq : forall l r, on l r = oeq false (kb1 l) (kp1 r).
+  Proof. intros. unfold on, on_of, kb, kp, tt2. cbn. rewrite !andb_true_r. reflexivity. Qed.
+
+  Lemma na_left_probe_spec : forall B pbs paging hn ne vis, length vis = length B ->
+    let res := na_left_probe hash kb1 kp1 tt2 wl B paging pbs hn ne vis in
+    fst (fst res) = hn || has_null_key kp1 (concat pbs) /\
+    snd (fst res) = ne || negb (Nat.eqb (length (concat pbs)) 0) /\
+    (fst (fst res) = false ->
+       length (snd res) = length B /\
+       forall i, (i < length B)%nat -> get_bit (snd res) i = get_bit vis i || existsb (on (brow B i)) (concat pbs)).
+  Proof.
+    intros B pbs. induction pbs as [|pb pbs IH]; intros paging hn ne vis Hlen; cbn [na_left_probe concat].
+    - cbn. rewrite !orb_false_r. split; auto. split; auto. intros _. split; auto. intros. rewrite orb_false_r. reflexivity.
+    - assert (HN : has_null_key kp1 (pb ++ concat pbs) = has_null_key kp1 pb || has_null_key kp1 (concat pbs))
+        by (unfold has_null_key; apply existsb_app).
+      assert (NE : negb (Nat.eqb (length (pb ++ concat pbs)) 0)
+                   = negb (Nat.eqb (length pb) 0) || negb (Nat.eqb (length (concat pbs)) 0))
+        by (destruct pb; cbn; auto).
+      destruct (hn || has_null_key kp1 pb) eqn:Ehn.
+      + specialize (IH (tl paging) true (ne || negb (Nat.eqb (length pb) 0)) vis Hlen). cbv zeta in IH.
+        destruct IH as [I1 [I2 I3]]. cbv zeta. rewrite I1, I2, HN, NE. cbn [orb].
+        split; [rewrite orb_assoc, Ehn; reflexivity|]. split; [rewrite orb_assoc; reflexivity|]. intros C. discriminate.
+      + apply orb_false_iff in Ehn. destruct Ehn as [-> Epb]. fold kb kp.
+        destruct (probe_batch_spec hash TLeftAnti false kb kp tt2 wl B (hd [] paging) pb vis Hlen) as [P1 [P2 _]].
+        destruct (probe_batch hash TLeftAnti false kb kp tt2 wl B (hd [] paging) pb vis) as [v1 o1]. cbn [fst snd] in *.
+        specialize (IH (tl paging) false (ne || negb (Nat.eqb (length pb) 0)) v1 P1). cbv zeta in IH.
+        destruct IH as [I1 [I2 I3]]. cbv beta iota zeta. rewrite I1, I2, HN, NE, Epb. cbn [orb].
+        split; auto. split; [rewrite orb_assoc; reflexivity|]. intros C. destruct I3 as [J1 J2]; [rewrite I1; exact C|].
+        split; auto. intros i Hi. rewrite J2, P2 by auto. cbn [need_final andb].
+        rewrite existsb_app, orb_assoc. reflexivity.
+  Qed.
+
+  Theorem na_left_anti_correct : forall B paging pbs,
+    na_left_anti hash kb1 kp1 tt2 wl B paging pbs = not_in_def kb1 kp1 B (concat pbs).
+  Proof.
+    intros. unfold na_left_anti, not_in_def.
+    pose proof (na_left_probe_spec B pbs paging false false (repeat false (length B)) (repeat_length _ _)) as S.
+    cbv zeta in S. destruct S as [S1 [S2 S3]].
+    destruct (na_left_probe hash kb1 kp1 tt2 wl B paging pbs false false (repeat false (length B))) as [[hn ne] vis].
+    cbn [fst snd orb] in *. set (R := concat pbs) in *.
+    assert (Def : forall x, is_TT (not_in3 (inj (kb1 x)) (map (fun y => inj (kp1 y)) R))
+                  = match R with [] => true
+                    | _ => is_some (kb1 x) && negb (has_null_key kp1 R) && negb (existsb (on x) R) end).
+    { intros x. rewrite <- (map_map kp1 inj), not_in_TT_keys. destruct R as [|r0 R']; [reflexivity|].
+      set (R0 := r0 :: R'). change (map kp1 R0) with (kp1 r0 :: map kp1 R') at 1. cbv iota.
+      rewrite forallb_some_map, existsb_map_comp. f_equal. f_equal. apply existsb_ext_in. intros r _. rewrite on_oeq. reflexivity. }
+    rewrite (filter_ext _ _ Def). subst hn ne. destruct (has_null_key kp1 R) eqn:HN.
+    - symmetry. apply filter_all_false. intros x _. destruct R; [discriminate HN|]. rewrite andb_false_r. reflexivity.
+    - destruct (S3 eq_refl) as [L1 L2]. rewrite L1.
+      assert (Hb : forall i, (i < length B)%nat -> get_bit vis i = existsb (on (brow B i)) R).
+      { intros i Hi. rewrite L2 by auto. rewrite get_bit_repeat_false. reflexivity. }
+      destruct R as [|r0 R'] eqn:ER.
+      + cbn [length Nat.eqb negb]. rewrite (filter_all_true (fun _ => true) B) by auto.
+        rewrite filter_all_true; [etransitivity; [|apply map_id]; apply (final_map_all B (brow B) (fun l => l)); auto|].
+        intros i Hi. apply in_seq in Hi. rewrite Hb by lia. reflexivity.
+      + cbn [length Nat.eqb negb]. rewrite filter_filter.
+        etransitivity; [|apply map_id].
+        apply (final_map_filter B _ (fun x => is_some (kb1 x) && true && negb (existsb (on x) (r0 :: R'))) (fun l => l)).
+        intros i Hi. rewrite Hb by auto. rewrite andb_true_r. destruct (kb1 (brow B i)); cbn; [rewrite andb_true_r|rewrite andb_false_r]; reflexivity.
+  Qed.
+End NAProofs.
+
+Lemma perm_filter : forall {A} (f : A -> bool) l l', Permutation l l' -> Permutation (filter f l) (filter f l').
+Proof.
+  intros A f l l' H. induction H; cbn; auto.
+  - destruct (f x); auto.
+  - destruct (f y), (f x); auto. constructor.
+  - etransitivity; eauto.
+Qed.
+Lemma oeq_sym : forall ne a b, oeq ne a b = oeq ne b a.
+Proof. intros ne [a|] [b|]; cbn; auto. apply Z.eqb_sym. Qed.
+
+Lemma filter_flat_map_anti : forall {A} (e nn : A -> bool) l,
+  filter nn (flat_map (fun r => if e r then [] else [r]) l) = filter (fun r => nn r && negb (e r)) l.
+Proof.
+  induction l as [|a l IH]; [reflexivity|]. cbn [flat_map filter]. rewrite filter_app, IH.
+  destruct (e a); cbn [filter app negb]; [rewrite andb_false_r; reflexivity|].
+  rewrite andb_true_r. destruct (nn a); reflexivity.
+Qed.
+
+Section NAProofs2.
+  Variable hash : okey -> Z.
+  Variables kb1 kp1 : row -> option Z.
+  Variables wl : Z.
+  Let kb := fun r : row => [kb1 r].
+  Let kp := fun r : row => [kp1 r].
+  Let tt2 := fun _ _ : row => true.
+  Let on := on_of false kb kp tt2.
+
+  Theorem na_right_anti_correct : forall B paging pbs,
+    Permutation (na_right_probe hash kb1 kp1 wl B paging pbs) (not_in_def kp1 kb1 (concat pbs) B).
+  Proof.
+    intros B paging pbs. revert paging. unfold not_in_def.
+    assert (Def : forall r, is_TT (not_in3 (inj (kp1 r)) (map (fun y => inj (kb1 y)) B))
+                  = match B with [] => true
+                    | _ => is_some (kp1 r) && negb (has_null_key kb1 B) && negb (existsb (fun l => on l r) B) end).
+    { intros r. rewrite <- (map_map kb1 inj), not_in_TT_keys. destruct B as [|l0 B']; [reflexivity|].
+      set (B0 := l0 :: B'). change (map kb1 B0) with (kb1 l0 :: map kb1 B') at 1. cbv iota.
+      rewrite forallb_some_map, existsb_map_comp. f_equal. f_equal. apply existsb_ext_in. intros l _.
+      rewrite (on_oeq kb1 kp1). apply oeq_sym. }
+    induction pbs as [|pb pbs IH]; intros paging; cbn [na_right_probe concat]; [constructor|].
+    rewrite filter_app. apply Permutation_app; [|apply IH]. rewrite (filter_ext _ _ Def).
+    destruct (has_null_key kb1 B) eqn:HN.
+    - rewrite filter_all_false; [constructor|]. intros r _. destruct B; [discriminate HN|]. rewrite andb_false_r. reflexivity.
+    - fold kb. destruct (map_is_empty false kb B) eqn:Em.
+      + assert (B = []).
+        { destruct B as [|l0 B']; auto. exfalso. unfold map_is_empty, build_index in Em.
+          assert (X : In 0%nat (filter (fun i => key_valid false (kb (brow (l0 :: B') i))) (seq 0 (length (l0 :: B'))))).
+          { apply filter_In. split; [cbn; auto|]. unfold key_valid, kb, brow. cbn.
+            unfold has_null_key in HN. cbn in HN. destruct (kb1 l0); [reflexivity | discriminate HN]. }
+          destruct (filter _ (seq 0 (length (l0 :: B')))); [destruct X | discriminate]. }
+        subst B. rewrite filter_all_true by auto. reflexivity.
+      + fold kp. fold tt2.
+        destruct (probe_batch_spec hash TRightAnti false kb kp tt2 wl B (hd [] paging) pb (repeat false (length B))
+                    (repeat_length _ _)) as [_ [_ P3]].
+        etransitivity; [apply perm_filter; exact P3|]. unfold batch_rows. cbn [pair_type phi app].
+        fold on. apply perm_of_eq.
+        assert (Bne : B <> []) by (intros ->; discriminate Em).
+        etransitivity; [apply (filter_flat_map_anti (fun r => existsb (fun l => on l r) B))|]. apply filter_ext. intros r. destruct B as [|l0 B']; [congruence|].
+        cbn [negb]. rewrite andb_true_r. destruct (kp1 r); reflexivity.
+  Qed.
+End NAProofs2.
+
+(* the NOT IN definition, read through C01's null-aware anti join law *)
+Lemma not_in_def_as_anti : forall k ki X Inner,
+  not_in_def k ki X Inner
+  = filter (fun x => negb (existsb (fun v => match eq3 (inj (k x)) v with TF => false | _ => true end)
+                                   (map (fun y => inj (ki y)) Inner))) X.
+Proof.
+  intros. unfold not_in_def. apply filter_ext. intros x. apply eq_iff_eq_true.
+  rewrite negb_true_iff. rewrite <- not_in_null_aware_anti.
+  destruct (not_in3 (inj (k x)) (map (fun y => inj (ki y)) Inner)); cbn; split; congruence.
+Qed.
